@@ -210,6 +210,10 @@ def run(ctx):
     if client_cases:
         bad, client_impl = run_client(ctx, client_cases)
         ctx.oblige('correspondence:client-reader-fresh-on-every-connection', bad == 0, f'{bad} mismatches over {len(client_cases)} multi-connection histories')
+        if not ctx.replay:
+            loud = ctx.harness('client_conns', [client_line(c) for c in client_cases[:100]], args=['--decode', 'max'], shards=4)
+            diff = [k for k, (a, b) in enumerate(zip(loud, client_impl[:100])) if a != b]
+            ctx.oblige('decode-level-does-not-change-client-results', not diff, f'{len(diff)} of {len(loud)} differ' + (f'; first: {client_line(client_cases[diff[0]])[:160]}' if diff else ''))
     # server role: the production SessionTask over the same streams; the session must end as the Spec says and
     # everything it does (handler calls, replies) must be the same for every chunking of the same stream
     n_srv = 0
@@ -235,6 +239,10 @@ def run(ctx):
                                   f'server session on `{fc.to_line(c)[:160]}`: {line[:160]}{other}; the stream prescribes {spec[:120]}',
                                   {'cases': [{'server': fc.case_to_json(c)}] + ([{'server': fc.case_to_json(first[0])}] if other else []), 'impl': line, 'spec': spec})
         n_srv = len(srv_cases)
+        if not ctx.replay:
+            loud = ctx.harness('server_session', [' '.join(['tcp', c[2]] + [(x.hex() if x else '-') for x in c[3]]) for c in srv_cases[:150]], args=['--decode', 'max'], shards=4)
+            diff = [k for k, (a, b) in enumerate(zip(loud, srv[:150])) if a != b]
+            ctx.oblige('decode-level-does-not-change-server-session', not diff, f'{len(diff)} of {len(loud)} differ' + (f'; first: {fc.to_line(srv_cases[diff[0]])[:160]}' if diff else ''))
         ctx.oblige('correspondence:tcp-server-session-chunking-independent', bad_srv == 0,
                    f'{bad_srv} mismatches over {n_srv} sessions / {len(by_stream)} distinct streams')
     # measured input classes
